@@ -490,6 +490,13 @@ type c16Snip struct {
 	viaCall bool
 }
 
+// faults that other properties require to be errors (C19 unknown names, C07 division by zero, C08
+// calls, C13 too many arguments, and constructs that cannot mean anything: an if without condition,
+// an operator without operand, a block / string / comment / verbatim that never ends)
+var c16MustFail = map[string]bool{"unknown_tag": true, "unknown_filter": true, "unknown_filter_arg": true, "missing_arg": true, "stray_op": true, "bad_for": true,
+	"unclosed_block": true, "unclosed_string": true, "unclosed_comment": true, "unclosed_verbatim": true, "div_zero": true, "mod_zero": true, "non_function": true,
+	"wrong_arity": true, "wrong_argtype": true, "func_error": true, "index_scalar": true, "macro_too_many": true}
+
 var c16Snips = []c16Snip{
 	{kind: "unknown_tag", src: "{% nosuchtag 1 %}", blame: 3, exact: true},
 	{kind: "unknown_filter", src: "{{ name|nosuchfilter }}", blame: 8, exact: true},
@@ -693,6 +700,12 @@ func checkC16Fault(c any, r *Rec) error {
 		return err
 	}
 	if e == nil {
+		if !c16MustFail[cs.Kind] {
+			// C16 is about where errors point. Whether this construct is an error at all is stated
+			// by no property (a lexer may accept a newline inside a tag, another escape sequence, ...)
+			r.Class("accepted-today:" + cs.Kind)
+			return nil
+		}
 		return fmt.Errorf("planted fault %s in %s was not reported at all\n files=%q", cs.Kind, cs.File, cs.Files)
 	}
 	if (phase == "execute") != cs.Exec {
